@@ -53,7 +53,7 @@ Definition has_lkey {V} (k : lab) (m : list (lab * V)) : bool :=
 (* _count_int *)
 Definition count_int (v : vars) (z : Z) : bool :=
   if is_range v then in_range v z
-  else (in_range v z && negb (has_key (Z.to_nat z) (i2l v))) || has_lkey (LI z) (l2i v).
+  else (if in_range v z then negb (has_key (Z.to_nat z) (i2l v)) else false) || has_lkey (LI z) (l2i v).
 
 Definition count (v : vars) (l : lab) : bool :=
   match l with LI z => count_int v z | LA _ => has_lkey l (l2i v) end.
